@@ -262,7 +262,7 @@ def gen_event_kw(rng, depth, mode, start_like=None, sane_lists=True):
     ndate_filters = 0
     max_date_filters = 3 if freq_i <= 1 else (2 if freq_i <= 3 else (1 if freq_i <= 5 else 0))
     target = local + (timedelta(days=rng.randint(0, 400)) if freq_i <= 3 else timedelta(0))
-    if start is None:
+    if start is None or (freq_i >= 4 and interval > 1):
         max_date_filters = 0
     order = ["bymonth", "bymonthday", "byyearday", "byweekday"]
     rng.shuffle(order)
@@ -621,13 +621,13 @@ def generate(rng, tier):
     for key in INT_KEYS + ["byweekday", "interval", "count", "cache", "until"]:
         for _ in range(3 if nq else 40):
             cases.append(gen_direct_single(rng, key))
-    for _ in range(900 if nq else 14000):
+    for _ in range(900 if nq else 26000):
         cases.append({"kind": "direct", "kw": gen_direct_kw(rng), "n": 2})
     for _ in range(12 if nq else 200):
         cases.append(gen_time_freq_date_start(rng, "direct"))
-    for _ in range(800 if nq else 12000):
+    for _ in range(800 if nq else 24000):
         cases.append(gen_recipe_case(rng))
-    for _ in range(120 if nq else 1500):
+    for _ in range(120 if nq else 3000):
         cases.append(gen_malformed_recipe(rng))
     # single documented by-keyword with a plain UTC datetime start, every keyword, both modes
     for key in DOC_INT_KEYS:
@@ -956,6 +956,31 @@ def _parse_out(s):
     return ["odd", repr(s)[:40]]
 
 
+REF_LIMIT = 6      # seconds the ENGINE alone may need for a case (all reference variants together)
+
+
+def _guarded(fn, limit):
+    """run fn() under its own SIGALRM budget, then restore the driver's alarm. -> (result, timed_out)"""
+    import signal
+    if signal.getsignal(signal.SIGALRM) in (signal.SIG_DFL, signal.SIG_IGN, None):
+        def _h(signum, frame):
+            raise C._CaseTimeout()
+        signal.signal(signal.SIGALRM, _h)
+    remaining = signal.alarm(0)
+    t0 = _time.time()
+    signal.alarm(limit)
+    try:
+        return fn(), False
+    except BaseException as e:
+        if type(e).__name__ == "_CaseTimeout":
+            return None, True
+        raise
+    finally:
+        signal.alarm(0)
+        if remaining:
+            signal.alarm(max(1, int(remaining - (_time.time() - t0))))
+
+
 def _run_recipe(case, S, mock):
     from snowfakery import generate_data
     RecRRule, RecRuleSet, state, enc_set = _make_recorders(delegate=True)
@@ -963,6 +988,15 @@ def _run_recipe(case, S, mock):
         text = render_recipe(case)
     except ValueError as e:
         return {"skip": f"case cannot be rendered: {e}"}
+    # The engine walks period by period and can need minutes for sparse or unsatisfiable filter
+    # combinations.  Such a case says nothing about Snowfakery: the pure-dateutil reference is run
+    # first under its own budget and the case is dropped when the ENGINE alone is that slow.  (When
+    # the reference is fast and the implementation does not finish, the driver reports the hang.)
+    t1 = _time.time()
+    pre, slow = _guarded(lambda: reference_all(case, datetime.now().replace(tzinfo=UTC)), REF_LIMIT)
+    if slow:
+        return {"skip": f"the engine alone needs more than {REF_LIMIT}s for these arguments", "slow_engine": True}
+    pre_s = round(_time.time() - t1, 3)
     out = io.StringIO()
     t0 = _time.time()
     obs = {"recipe": text}
@@ -1007,9 +1041,14 @@ def _run_recipe(case, S, mock):
         if now is None:
             now = wall_before.replace(tzinfo=UTC)
             obs["now_unobserved"] = True
-    t1 = _time.time()
-    obs["ref"] = reference_all(case, now)
-    obs["ref_s"] = round(_time.time() - t1, 3)
+    if now is None:
+        obs["ref"] = pre
+    else:
+        ref, slow = _guarded(lambda: reference_all(case, now), REF_LIMIT)
+        if slow:
+            return {"skip": f"the engine alone needs more than {REF_LIMIT}s for these arguments", "slow_engine": True}
+        obs["ref"] = ref
+    obs["ref_s"] = pre_s
     return obs
 
 
@@ -1630,7 +1669,7 @@ def stats(cases, obss):
         elif "err" in o:
             outcomes[c["kind"] + ":" + str(o["err"]) + ("(engine)" if o.get("engine_err") else "")] += 1
         else:
-            outcomes[c["kind"] + ":" + ("skip" if o.get("skip") else "other")] += 1
+            outcomes[c["kind"] + ":" + (("skip(slow engine)" if o.get("slow_engine") else "skip") if o.get("skip") else "other")] += 1
         for k, _ in c["kw"]:
             keys[k] += 1
         fq = kwget(c["kw"], "freq")
